@@ -219,7 +219,8 @@ func (x *VC) invoke(recv *Val, ifaceT types.Type, m *types.Func, args []*Val, st
 	impls := x.eng.implementers(ifaceT)
 	if recv.Alt != nil {
 		impls = recv.Alt
-	} else if x.c != nil && x.c.Dispatch != nil && x.specMode == 0 {
+	}
+	if x.c != nil && x.c.Dispatch != nil && x.specMode == 0 {
 		if n, ok := ifaceT.(*types.Named); ok {
 			if alts, ok := x.c.Dispatch[n.Obj().Name()]; ok {
 				var hs []types.Type
@@ -708,9 +709,14 @@ func (x *VC) applyContract(callee *ssa.Function, c *Contract, key string, sig *t
 	if c.ModAll {
 		x.havocAll(st)
 	}
+	var freshRes *Val
 	{
 		if !c.Pure && !c.ModAll {
 			x.havocComp(st, x.allocComp()) // any callee may allocate (monotone)
+		}
+		if c.Fresh && sig.Results().Len() > 0 {
+			// the fresh result exists before the frame is applied, so `modifies T.f @ result` can name it
+			freshRes = x.scalar(x.allocRef(st, reach, "fresh", sig.Results().At(0).Type()), sig.Results().At(0).Type())
 		}
 		for _, m := range c.Modifies {
 			sel, at := splitModAt(m)
@@ -720,7 +726,14 @@ func (x *VC) applyContract(callee *ssa.Function, c *Contract, key string, sig *t
 				if err != nil {
 					x.refuse("modifies %s: %v", m, err)
 				}
-				atRef = x.evalSpec(ae, env).T
+				aenv := env
+				if freshRes != nil {
+					ae2 := *env
+					ae2.result = []*Val{freshRes}
+					ae2.sig = sig
+					aenv = &ae2
+				}
+				atRef = x.evalSpec(ae, aenv).T
 			}
 			for _, cp := range x.resolveModifies(sel, env) {
 				if atRef != "" && cp.Idx == "Int" && !x.immutableComp(cp.Key) {
@@ -791,8 +804,10 @@ func (x *VC) applyContract(callee *ssa.Function, c *Contract, key string, sig *t
 	for i := 0; i < sig.Results().Len(); i++ {
 		rt := sig.Results().At(i).Type()
 		if c.Fresh && i == 0 {
-			r := x.allocRef(st, reach, "fresh", rt)
-			res = append(res, x.scalar(r, rt))
+			if freshRes == nil {
+				freshRes = x.scalar(x.allocRef(st, reach, "fresh", rt), rt)
+			}
+			res = append(res, freshRes)
 			continue
 		}
 		res = append(res, x.fresh(rt, "res", reach, st))
